@@ -260,7 +260,7 @@ func recycleScenario(i int) {
 	}
 	// wait (real time) until the control node has been recycled: it no longer shows up as an outlier
 	gone := false
-	for k := 0; k < 100 && !gone; k++ {
+	for k := 0; k < 600 && !gone; k++ { // up to 30 s (normally ~1 s); only the inconclusive verdict depends on it
 		time.Sleep(50 * time.Millisecond)
 		clk.AddMs(1)
 		f := call("", false)
@@ -275,7 +275,7 @@ func recycleScenario(i int) {
 		}
 	}
 	if !gone {
-		run.Inconclusive("recycler scenario: the control node was not recycled within 5 s (real timer late?)")
+		run.Inconclusive("recycler scenario: the control node was not recycled within 30 s (real timer late?)")
 		return
 	}
 	// the healed node must still be known: make it fail again and it must be reported immediately
